@@ -75,8 +75,10 @@ def rand_params(rng, i):
     ru = rng.choice([0.1, 0.0, -0.5, 0.7])
     ratio = rng.choice([1, 1, 0.5, 2, 0.1, 3.7])
     arpo = rng.choice([10, 1, 123.4])
-    return dict(ratio=ratio, sessions_uplift=su, orders_uplift=ou, revenue_uplift=ru, avg_sessions=avg,
-                avg_orders_per_session=aops, avg_revenue_per_order=arpo)
+    p = dict(ratio=ratio, sessions_uplift=su, orders_uplift=ou, revenue_uplift=ru, avg_sessions=avg,
+             avg_orders_per_session=aops, avg_revenue_per_order=arpo)
+    # every parameter is documented `float | int`: an integral value may arrive as a Python int (0 rather than 0.0)
+    return {k: (int(v) if float(v).is_integer() and rng.random() < 0.5 else v) for k, v in p.items()}
 
 
 def params_wire(n, p, cov):
@@ -329,6 +331,13 @@ def calibration(chk: Check, n):
     rng = chk.rng
     for i in range(n):
         p = rand_params(rng, i)
+        if i == 0:
+            # integer-typed zero uplifts next to fractional ones
+            p = dict(ratio=1, sessions_uplift=0, orders_uplift=0.5, revenue_uplift=0.25, avg_sessions=2,
+                     avg_orders_per_session=0.25, avg_revenue_per_order=10)
+        elif i == 1:
+            p = dict(ratio=2, sessions_uplift=0.1, orders_uplift=0, revenue_uplift=0.5, avg_sessions=3,
+                     avg_orders_per_session=0.25, avg_revenue_per_order=10)
         nu = 60000
         seed = rng.randint(0, 10**6)
         inp = dict(params=p, n_users=nu, seed=seed)
